@@ -32,6 +32,7 @@
       - list literals (`list`; lists are shared handles and this model has no heap: the `push`
         through the cloned handle carries the temporary it was cloned from as a ghost
         annotation) and `for` (`r#for`: `get(index)` per iteration, increment block);
+      - string concatenation `l + r` (`desugared_binop`);
       - f-strings (`f_string`: parts converted and appended one after the other);
       - enum constructors `E.V(args…)` (`enum_constructor` + `make_enum`);
       - `match` (`r#match` / `match_case`): guard chains per discriminant with the `_` arms
@@ -518,6 +519,18 @@ def lowerE : Expr → Nat → Option (Code × Value × Nat)
               ([.assign (.x x) (.cloneProj opt 0 0)] ++ cb)
               [.assign one (.const (.int 1)), .assign idx (.idxAdd idx one)]],
           .const .unit, c3)
+  | .concat l r, c => do
+    -- `binop_str` → `desugared_binop`: left lowered and materialised, right lowered and
+    -- materialised, result temporary, `append`
+    let (cl, vl, c) ← lowerE l c
+    let ml := atvCode vl c
+    let xl := atvVar vl c
+    let c := atvNext vl c
+    let (cr, vr, c) ← lowerE r c
+    let mr := atvCode vr c
+    let xr := atvVar vr c
+    let c := atvNext vr c
+    pure (cl ++ ml ++ (cr ++ mr) ++ [.assign (.t c) (.append xl xr)], .move (.t c), c + 1)
   | .fstr ps, c => do
     -- `f_string`: `string = ""`; every part, in source order, becomes a string (a literal, or
     -- the value stored in a receiver temporary and passed to `to_string`), is materialised and
